@@ -358,6 +358,34 @@ func genHub(c *ctx) *leanFile {
 	}
 	l.boolean("flushHandsOverEveryMessage", flushAll, fdFlush != nil, "ClientSession.SendMessages not found")
 
+	// the duplicate-join memory (C04, observer side) starts afresh whenever the session's room is set or cleared:
+	// SetRoom calls onRoomSet as a top-level statement, and onRoomSet assigns nil to seenJoinedEvents as a
+	// top-level statement (not under a condition)
+	fdSetRoom := findFunc(cs, "ClientSession", "SetRoom")
+	fdOnRoomSet := findFunc(cs, "ClientSession", "onRoomSet")
+	callsTop, resetsTop := false, false
+	if fdSetRoom != nil && fdSetRoom.Body != nil {
+		for _, st := range fdSetRoom.Body.List {
+			if es, ok := st.(*ast.ExprStmt); ok {
+				if call, ok := es.X.(*ast.CallExpr); ok {
+					if sel, ok := call.Fun.(*ast.SelectorExpr); ok && sel.Sel.Name == "onRoomSet" {
+						callsTop = true
+					}
+				}
+			}
+		}
+	}
+	if fdOnRoomSet != nil && fdOnRoomSet.Body != nil {
+		for _, st := range fdOnRoomSet.Body.List {
+			if as, ok := st.(*ast.AssignStmt); ok && len(as.Lhs) == 1 && len(as.Rhs) == 1 {
+				if selectorEndsWith(as.Lhs[0], "seenJoinedEvents") && isIdent(as.Rhs[0], "nil") {
+					resetsTop = true
+				}
+			}
+		}
+	}
+	l.boolean("viewResetOnRoomChange", callsTop && resetsTop, fdSetRoom != nil && fdOnRoomSet != nil, "ClientSession.SetRoom / onRoomSet not found")
+
 	// a connection proxied from another server refuses a message once it is closed (the message is then queued
 	// for the session) and never blocks: closed-check first, then a non-blocking send
 	grc := c.file("grpc_remote_client.go")
